@@ -1822,9 +1822,13 @@ func (s suggestionListResult) Len() int {
 }
 func (s suggestionListResult) Swap(i, j int) {
 	s.Options[i], s.Options[j] = s.Options[j], s.Options[i]
+	s.Distances[i], s.Distances[j] = s.Distances[j], s.Distances[i]
 }
 func (s suggestionListResult) Less(i, j int) bool {
-	return s.Distances[i] < s.Distances[j]
+	if s.Distances[i] != s.Distances[j] {
+		return s.Distances[i] < s.Distances[j]
+	}
+	return s.Options[i] < s.Options[j]
 }
 
 // suggestionList Given an invalid input string and a list of valid options, returns a filtered
